@@ -103,10 +103,17 @@ Theorem C17_skipset_cost_after_any_history : forall ops, sheights_pos ops ->
               SM.store_cost k h s <= SM.lane_bound (randomlevel h s).
 Proof. exact skipset_reachable. Qed.
 
+(* LoadOrStore / LoadOrStoreLazy of an absent key with drawn level h (SM.los_cost): one search with highestLevel as read
+   at entry, and a second one with the raised highestLevel when h exceeds it *)
+Theorem C17_skipmap_los_cost_after_any_history : forall ops, mheights_pos ops -> forall k h,
+  let s := fst (run skipmap_step sm0 ops) in
+  SM.los_cost k h s <= SM.lane_bound s + SM.lane_bound (randomlevel h s).
+Proof. exact skipmap_los_reachable. Qed.
+
 Example C17_skipmap_nonvacuous :
   let s := fst (run skipmap_step sm0 [Store 10 1 1; Store 20 1 4; Store 30 1 1; Store 40 1 2; Store 50 1 1; Delete 30]) in
   map nh (nodes s) = [1; 4; 2; 1] /\ hl s = 4 /\
-  SM.find_cost 50 s = 4 /\ SM.del_cost 40 s = 4 /\ SM.store_cost 45 6 s = 4 /\ SM.lane_bound s = 11.
+  SM.find_cost 50 s = 4 /\ SM.del_cost 40 s = 4 /\ SM.store_cost 45 6 s = 4 /\ SM.los_cost 45 6 s = 8 /\ SM.lane_bound s = 11.
 Proof. vm_compute. repeat split. Qed.
 End SkipMapSet.
 
@@ -116,3 +123,4 @@ Print Assumptions C17_zset_search_model.
 Print Assumptions C17_zset_cost_after_any_history.
 Print Assumptions C17_skipmap_cost_after_any_history.
 Print Assumptions C17_skipset_cost_after_any_history.
+Print Assumptions C17_skipmap_los_cost_after_any_history.
